@@ -25,7 +25,7 @@ Field(t, attrs) == [ftype |-> t, attrs |-> attrs, rel |-> None, data |-> "orig-n
 FKField(target, attrs) == [ftype |-> "FK", attrs |-> attrs, rel |-> target, data |-> "orig-nn"]
 IdField == Field("Auto", D1("primary_key", TRUE))
 Model(name, fields, ut, idx) == [table |-> "t_" \o name, fields |-> fields,
-                                 ut |-> ut, uta |-> TRUE, idx |-> idx]
+                                 ut |-> ut, uta |-> TRUE, idx |-> idx, cons |-> <<>>]
 Idx(name, fields) == [name |-> name, fields |-> fields]
 
 Start(id) ==
